@@ -33,6 +33,8 @@ class DataFormatIdentifier:
 
     @classmethod
     def from_byte(cls, byte: Union[bytes, int]) -> "DataFormatIdentifier":
+        if isinstance(byte, bytes):
+            byte = struct.unpack('B', byte)[0]
         byte = int(byte)
         return cls(compression=(byte >> 4) & 0xF, encryption=(byte & 0xF))
 
